@@ -4,6 +4,7 @@ import (
 	"fmt"
 	"go/token"
 	"go/types"
+	"math"
 	"strings"
 
 	"golang.org/x/tools/go/ssa"
@@ -672,11 +673,20 @@ func c17Tables(h H) {
 			k   int64
 			err string // "", "eof", "other"
 		}
-		for remaining := int64(0); remaining <= int64(tb(3, 6)) && bad == ""; remaining++ {
+		var allowances []int64
+		for remaining := int64(0); remaining <= int64(tb(3, 6)); remaining++ {
+			allowances = append(allowances, remaining)
+		}
+		// the largest limits a configuration can name: remaining+1 must not be computed in a way that wraps
+		allowances = append(allowances, math.MaxInt64-1, math.MaxInt64)
+		for _, remaining := range allowances {
+			if bad != "" {
+				break
+			}
 			for plen := int64(0); plen <= int64(tb(5, 9)) && bad == ""; plen++ {
 				for _, sticky := range []string{"", "other", "toolarge"} {
 					want := plen
-					if want > remaining+1 {
+					if remaining < want-1 {
 						want = remaining + 1
 					}
 					var results []srcRes
@@ -776,7 +786,7 @@ func c17Tables(h H) {
 			}
 		}
 		r.Check(bad == "", "R2", "limits.(*maxBytesReader).Read/table", fn.Pos(),
-			"for every remaining allowance 0–3, buffer length 0–5, remembered error and every result the source can give, Read returns what the specification says: the remembered error without touching the source; (0, nil) for an empty buffer; otherwise one read of min(len(p), remaining+1) bytes, passed through and accounted when within the allowance, cut to the allowance with the too-large error (remembered from then on) when beyond it",
+			"for every remaining allowance 0–3 and the two largest representable ones, buffer length 0–5, remembered error and every result the source can give, Read returns what the specification says: the remembered error without touching the source; (0, nil) for an empty buffer; otherwise one read of min(len(p), remaining+1) bytes, passed through and accounted when within the allowance, cut to the allowance with the too-large error (remembered from then on) when beyond it",
 			fmt.Sprintf("%d evaluations", nrun), bad)
 	}
 }
